@@ -238,6 +238,161 @@ def families_for(c, real):
     return None
 
 
+# ---- structured derive inputs for the model's decision layer (`families_of`)
+
+ADDOPS = {"Add": "OAdd", "Sub": "OSub", "BitAnd": "OBitAnd", "BitOr": "OBitOr", "BitXor": "OBitXor"}
+MULOPS = {"Mul": "OMul", "Div": "ODiv", "Rem": "ORem", "Shr": "OShr", "Shl": "OShl"}
+
+
+def coq_derive(name):
+    if name in ADDOPS:
+        return "(DAddLike %s)" % ADDOPS[name]
+    if name.endswith("Assign") and name[:-6] in ADDOPS:
+        return "(DAddAssignLike %s)" % ADDOPS[name[:-6]]
+    if name in MULOPS:
+        return "(DMulLike %s)" % MULOPS[name]
+    if name.endswith("Assign") and name[:-6] in MULOPS:
+        return "(DMulAssignLike %s)" % MULOPS[name[:-6]]
+    if name in ("Not", "Neg"):
+        return "(DNotLike O%s)" % name
+    if name in C.FMT_TRAITS:
+        return "(DFmt O%s)" % name
+    return "D" + name
+
+
+def split_top(text):
+    """split at top-level commas (parentheses, brackets, angle brackets nest); empty trailing item dropped"""
+    out, cur, depth = [], [], 0
+    for i, ch in enumerate(text):
+        if ch in "([<":
+            depth += 1
+        elif ch in ")]" or (ch == ">" and text[i - 1:i] != "-"):
+            depth -= 1
+        if ch == "," and depth == 0:
+            out.append("".join(cur).strip())
+            cur = []
+        else:
+            cur.append(ch)
+    last = "".join(cur).strip()
+    if last:
+        out.append(last)
+    return [x for x in out if x]
+
+
+def attr_args(attrs, name):
+    """-> None (no such attribute) | [] (`#[name]`) | list of top-level arguments"""
+    for a in attrs:
+        m = re.match(r"#\[%s(?:\((.*)\))?\]$" % re.escape(name), a, re.S)
+        if m:
+            return [] if m.group(1) is None else split_top(m.group(1))
+    return None
+
+
+def conv_attr_term(args, g):
+    if args is None:
+        return "CAbsent"
+    if not args:
+        return "CEmpty"
+    if args in (["skip"], ["ignore"]):
+        return "CSkip"
+    if args == ["forward"]:
+        return "CForward"
+    return "(CTypes %s)" % C.c_list(C.c_u(t, g) for t in args)
+
+
+def conv3_term(args, nfields, g):
+    """into.rs ConversionsAttribute::parse on the spellings the generator emits"""
+    cv = {"owned": [False, []], "ref": [False, []], "ref_mut": [False, []]}
+
+    def per_field(t):
+        if nfields == 1:
+            return [t]
+        inner = t.strip()
+        assert inner.startswith("(") and inner.endswith(")"), t
+        return split_top(inner[1:-1])
+    for a in args:
+        m = re.match(r"(owned|ref_mut|ref)\s*(?:\((.*)\))?$", a, re.S)
+        if m:
+            if m.group(2) is None:
+                cv[m.group(1)][0] = True
+            else:
+                cv[m.group(1)][1] += [per_field(t) for t in split_top(m.group(2))]
+        else:
+            cv["owned"][1].append(per_field(a))
+    return "(C3 %s)" % " ".join("(Cv %s %s)" % ("true" if cv[k][0] else "false",
+                                               C.c_list(C.c_list(C.c_u(t, g) for t in ts) for ts in cv[k][1]))
+                                for k in ("owned", "ref", "ref_mut"))
+
+
+def dinput_of(c, fams):
+    """Coq `dinput` term of a case: read off the generated item for the derives whose impl set is decided by the model
+    (From, Into, AsRef/AsMut, IntoIterator, TryInto), otherwise the family the case builder / expansion provided"""
+    it, g, d = c.item, c.item.g, c.derive
+    u = lambda t: C.c_u(t, g)
+    if d == "From":
+        if it.kind == "struct":
+            return "IFromI (FromStruct %s %s)" % (conv_attr_term(attr_args(it.attrs, "from"), g),
+                                                   C.c_list(u(f.ty) for f in it.fields))
+        return "IFromI (FromEnum %s)" % C.c_list("(V %s %s)" % (C.c_list(u(f.ty) for f in v.fields),
+                                                                  conv_attr_term(attr_args(v.attrs, "from"), g))
+                                                  for v in it.variants)
+    if d == "Into":
+        fields = []
+        for f in it.fields:
+            a = attr_args(f.attrs, "into")
+            skip = a in (["skip"], ["ignore"])
+            convs = "None" if a is None or skip else ("(Some conv_default)" if not a else "(Some %s)" % conv3_term(a, 1, g))
+            fields.append((f.ty, skip, convs))
+        n_struct = sum(1 for f in fields if not f[1])
+        a = attr_args(it.attrs, "into")
+        sattr = "SAbsent" if a is None else ("SEmpty" if not a else "(SConvs %s)" % conv3_term(a, n_struct, g))
+        return "IIntoI (II %s %s)" % (sattr, C.c_list("(IF %s %s %s)" % (u(t), "true" if sk else "false", cv)
+                                                       for t, sk, cv in fields))
+    if d in ("AsRef", "AsMut"):
+        an = C.snake(d)
+        a = attr_args(it.attrs, an)
+        sattr = "ASNone" if a is None else ("ASForward" if a == ["forward"] else "(ASTypes %s)" % C.c_list(u(t) for t in a))
+        return "IAsRefI (AR %s %s)" % (sattr, C.c_list("(%s, %s)" % (u(f.ty), conv_attr_term(attr_args(f.attrs, an), g))
+                                                        for f in it.fields))
+    if d == "IntoIterator":
+        marks = [attr_args(f.attrs, "into_iterator") for f in it.fields]
+        enabled = [i for i, m in enumerate(marks) if m is not None and m != ["ignore"]]
+        if not enabled:
+            enabled = [i for i, m in enumerate(marks) if m != ["ignore"]]
+        fty = it.fields[enabled[0]].ty
+        sel = attr_args(it.attrs, "into_iterator") or marks[enabled[0]] or []
+        flags = [("true" if k in sel else "false") for k in ("owned", "ref", "ref_mut")] if sel else ["true", "false", "false"]
+        return "IRefs %s %s" % (" ".join(flags), u(fty))
+    if d == "TryInto":
+        sel = attr_args(it.attrs, "try_into") or []
+        flags = [("true" if k in sel else "false") for k in ("owned", "ref", "ref_mut")] if sel else ["true", "false", "false"]
+        vs = [v for v in it.variants if attr_args(v.attrs, "try_into") != ["ignore"]]
+        return "ITryIntoI %s" % C.c_list("(TV %s %s)" % (C.c_list(u(f.ty) for f in v.fields), " ".join(flags)) for v in vs)
+    # one family, provided by the case builder (or completed from the expansion): wrap it
+    if not fams or len(fams) != 1:
+        return None
+    f = fams[0]
+    if f.startswith(("FInherent", "FSum")):
+        return "IPlain"
+    if f.startswith(("FAddLike", "FAddAssignLike")):
+        return "IForward true" if (d in C.MUL or d in C.MUL_ASSIGN) else "IPlain"
+    m = re.match(r"FMul(?:Assign)?Like \S+ (\d+) (.*)$", f, re.S) or re.match(r"FMul(?:Assign)?Like \(s \"\w+\"\) (\d+) (.*)$", f, re.S)
+    if m:
+        return "IScalar %s %s" % (m.group(1), m.group(2))
+    for pre, ctor in (("FFmt ", "IFmtBounds"), ("FDeref ", "IDerefI"), ("FIndex ", "IField"), ("FError ", "IErrorI"),
+                      ("FTryFrom ", "IRepr")):
+        if f.startswith(pre):
+            rest = f[len(pre):]
+            if pre != "FError " and pre != "FTryFrom ":
+                rest = re.sub(r"^\(s \"\w+\"\)\s*", "", rest)       # drop the trait name
+            return "%s %s" % (ctor, rest)
+    if f == "FFromStrStruct":
+        return "IEnum false"
+    if f == "FFromStrEnum":
+        return "IEnum true"
+    return None
+
+
 def free_ws(text, g):
     """parameter names mentioned in a white-space free token text"""
     names = sorted((p["n"] for p in g["params"]), key=len, reverse=True)
@@ -275,10 +430,16 @@ def run_tie(chk, cases, expansions):
             continue        # one tie per type form in the quick tier (all of them are compiled by the oracle)
         real = real_headers(r.get("items") or [])
         fams = families_for(c, real)
-        if fams is None:
+        if fams is None and c.derive not in ("From", "Into", "AsRef", "AsMut", "IntoIterator", "TryInto"):
             continue
         g = C.c_generics(c.item.g)
-        model = "map (fun f => render %s (header f %s)) %s" % (C.c_str(c.item.name), g, C.c_list("(%s)" % f for f in fams))
+        di = dinput_of(c, fams)
+        if di is None:
+            chk.bump("tie_without_decision_layer")
+            model = "map (fun f => render %s (header f %s)) %s" % (C.c_str(c.item.name), g, C.c_list("(%s)" % f for f in fams))
+        else:
+            # the model decides which impls exist (families_of), then builds each header
+            model = "map (render %s) (headers_of %s (%s) %s)" % (C.c_str(c.item.name), coq_derive(c.derive), di, g)
         fams_of[i] = (fams, real, model)
         if c.unordered:
             printed.append(i)
@@ -308,6 +469,55 @@ def run_tie(chk, cases, expansions):
         else:
             n += 1
     chk.cov["traces_validated_against_impl"] = n
+    return n
+
+
+# ------------------------------------------------------------------ tie of the acceptance model (`accepts`)
+
+VK = {"unit": ("VUnit", ""), "t0": ("(VTuple 0)", "()"), "t1": ("(VTuple 1)", "(i32)"), "t2": ("(VTuple 2)", "(i32, u8)"),
+      "t3": ("(VTuple 3)", "(i32, u8, i64)"), "n0": ("(VNamed 0)", " {}"), "n1": ("(VNamed 1)", " { a: i32 }"),
+      "n2": ("(VNamed 2)", " { a: i32, b: u8 }")}
+ENUM_SHAPES = [[], ["unit"], ["t1"], ["n1"], ["t0"], ["n0"], ["t2"], ["n2"], ["unit", "unit"], ["t1", "n1"],
+               ["unit", "t1"], ["t1", "t2"], ["t1", "n2", "unit"], ["t1", "t2", "unit"], ["n1", "unit"], ["t3", "t1"]]
+
+
+def run_accepts_tie(chk, inproc, rng):
+    """the model's `accepts d fwd shape` vs the real expander (ok / not ok) on attribute-free items of every shape"""
+    reqs, exprs, meta = [], [], []
+    for d in C.ALL_DERIVES:
+        fwds = [False, True] if (d in C.MUL or d in C.MUL_ASSIGN) else [False]
+        for fwd in fwds:
+            pre = ("#[%s(forward)] " % C.snake(d)) if fwd else ""
+            if d == "TryFrom":
+                pre = "#[try_from(repr)] "
+            for k, (term, body) in VK.items():
+                src = pre + "struct S" + body + (";" if not body.endswith("}") else "")
+                reqs.append({"cmd": "expand", "derive": d, "item": src, "summary": False})
+                exprs.append("accepts %s %s (SStruct %s)" % (coq_derive(d), "true" if fwd else "false", term))
+                meta.append((d, fwd, src))
+            for vs in ENUM_SHAPES:
+                src = pre + "enum S { " + ", ".join("V%d%s" % (i, VK[k][1].strip() and VK[k][1]) for i, k in enumerate(vs)) + " }"
+                reqs.append({"cmd": "expand", "derive": d, "item": src, "summary": False})
+                exprs.append("accepts %s %s (SEnum %s)" % (coq_derive(d), "true" if fwd else "false",
+                                                           C.c_list(VK[k][0] for k in vs)))
+                meta.append((d, fwd, src))
+    real = common.run_jsonl(inproc, reqs)
+    model = common.coq_eval(["Verif.C01.Model"], exprs, batch=max(50, (len(exprs) + 15) // 16), tag="c01acc")
+    n = 0
+    for (d, fwd, src), r, m in zip(meta, real, model):
+        ok = "ok" in r
+        n += 1
+        chk.bump("accepts:" + ("accepted" if ok else "refused"))
+        if ok != (m == "true"):
+            chk.violation("tie-accepts:%s" % d, {"derive": d, "item": src, "model_accepts": m, "real": {k: r[k] for k in r if k != "ok"}},
+                          "acceptance model disagrees with derive(%s) on `%s`: model %s, expander %s" %
+                          (d, src, m, "accepts" if ok else json.dumps(r)[:200]))
+    # the derive table itself: lib.rs vs `all_derives`
+    names = common.coq_eval(["Verif.C01.Model"], ["map derive_name all_derives"], tag="c01names")[0]
+    listed = sorted(x[0] for x in common.run_jsonl(inproc, [{"cmd": "list"}])[0]["derives"])
+    if sorted(py_str(x) for x in names) != listed:
+        chk.violation("tie-derive-table", {"model": sorted(py_str(x) for x in names), "lib_rs": listed},
+                      "the model's derive table differs from the create_derive! table of lib.rs")
     return n
 
 
@@ -602,6 +812,10 @@ def run(tier, seed, replay):
     acc_ix = [i for i, r in enumerate(exps) if "ok" in r]
     n_tie = run_tie(chk, [cases[i] for i in acc_ix], [exps[i] for i in acc_ix])
     chk.log("tie: %d expansions compared with the model" % n_tie)
+    if not replay:
+        n_acc = run_accepts_tie(chk, inproc, rng)
+        chk.cov["traces_validated_against_impl"] += n_acc
+        chk.log("tie: %d accept/refuse decisions compared with the model" % n_acc)
 
     # ---- oracle
     nshards = 1 if replay else (4 if tier == "quick" else 16)
@@ -697,7 +911,13 @@ META = {
     "level": "proof",
     "technique": "Coq proof of impl-header well-formedness for every derive family and every generic parameter list + "
                  "T-gen attribute-presence theorem + compile matrix with the real macro under deny(warnings)",
-    "text": "Theorems (unbounded generics lists, induction): for each of the 19 header templates the derives build (from syn's "
+    "text": "Decision layer: the 50 derives (table tied to lib.rs), which impls From / Into / AsRef / AsMut / IntoIterator / "
+            "TryInto emit for an attribute set (from.rs, into.rs, as/mod.rs, ref_types), and which item shapes every derive "
+            "accepts, are modelled and tied on every run; C01_wf_all_derives_partial covers every header of every derive for "
+            "every input, with corollaries for the two clauses of the property text (own generics only on the type; added "
+            "bounds only mention parameters in scope), parameter placement for unsorted lists, TryInto key distinctness and "
+            "documented-shape acceptance. "
+            "Theorems (unbounded generics lists, induction): for each of the 19 header templates the derives build (from syn's "
             "split_for_impl and the utils.rs helpers) the header declares every parameter exactly once with its bounds and "
             "without default, lifetimes first, applies the type's generic arguments to the type and to nothing else, and "
             "mentions only parameters in scope, fresh names being distinct from user names under the stated `__` assumption; "
